@@ -1,5 +1,6 @@
 import IrVerif.Drive.Util
 import IrVerif.Model.Device
+import IrVerif.Model.DeviceInl
 /-! Protocol handler for the C19 model: `device.run` executes a history of operations from the
 empty world and returns, after every operation, the outcome and the complete canonical state
 (object identities are heap indices), the checker output and the serialized device fields of
@@ -209,11 +210,17 @@ def stepOp (w : World) (j : Json) : Except String (World × Res × Json × Bool)
   else
     let o ← parseOp j
     let r := step w o
-    -- a round trip below IR version 11 is covered by `C19_roundtrip_legacy` (hypotheses evaluated here)
+    -- `PreAny` of `C19_step_any` / `C19_history_any`: `Pre`, or a round trip below IR version 11 of a model with
+    -- closed lists and names unique per scope chain
     let legacy := match o with
-      | .roundTrip m => decide ((w.model m).irVersion < 11 ∧ Closed w (w.model m) ∧ NamesUnique w (w.model m))
+      | .roundTrip m => decide ((w.model m).irVersion < 11 ∧ Closed w (w.model m) ∧ NamesChain w (w.model m))
       | _ => false
-    pure (r.1, r.2, Json.null, decide (Pre w o) || legacy)
+    -- for a round trip: whether the former, stronger hypothesis (names unique across the whole model) holds too
+    let out := match o with
+      | .roundTrip m => obj [("namesUnique", toJson (decide (NamesUnique w (w.model m)))),
+                             ("namesChain", toJson (decide (NamesChain w (w.model m))))]
+      | _ => Json.null
+    pure (r.1, r.2, out, decide (Pre w o) || legacy)
 
 def resJ : Res → Json
   | .ok => "ok"
@@ -248,9 +255,60 @@ def instReq (j : Json) : Except String Json := do
   | none => pure (obj [("res", "raised")])
   | some nd => pure (obj [("res", "ok"), ("node", nodeJ nd)])
 
+
+/-- silently run a world-building history -/
+def buildWorld : World → List Json → Except String World
+  | w, [] => pure w
+  | w, j :: rest => do
+    let (w1, _, _, _) ← stepOp w j
+    buildWorld w1 rest
+
+def parsePairNatNats (j : Json) : Except String (Nat × List Nat) := do
+  match j with
+  | Json.arr a =>
+    if a.size = 2 then
+      let k ← fromJson? (α := Nat) a[0]!
+      let vs ← fromJson? (α := Array Nat) a[1]!
+      pure (k, vs.toList)
+    else throw "pair"
+  | _ => throw "pair"
+
+def parsePairNat (j : Json) : Except String (Nat × Nat) := do
+  match j with
+  | Json.arr a =>
+    if a.size = 2 then
+      let k ← fromJson? (α := Nat) a[0]!
+      let v ← fromJson? (α := Nat) a[1]!
+      pure (k, v)
+    else throw "pair"
+  | _ => throw "pair"
+
+/-- `device.inline`: build a world from `ops`, then run the model of `InlinePass` on model `m` with the side
+    table `callee` = [[node, body graph], ...], `outs` = [[graph, [value, ...]], ...]; returns the final state,
+    the side table, the ghost set `subst`, the theorem's hypotheses and the Lean predicate `WeakOK` -/
+def inlineReq (j : Json) : Except String Json := do
+  let ops ← getArr j "ops"
+  let w ← buildWorld {} ops
+  let m ← getNat j "model"
+  let fuel ← getNat j "fuel"
+  let callee ← (← getArr j "callee").mapM parsePairNat
+  let outs ← (← getArr j "outs").mapM parsePairNatNats
+  let t : ITab := { callee := callee, outs := outs }
+  let hyp := obj [("devok", toJson (decide (DevOK w))), ("heapreg", toJson (decide (HeapReg w m))),
+    ("graphids", toJson (decide (GraphIds w)))]
+  match inlinePass fuel w m t with
+  | none => pure (obj [("res", "raised"), ("hyp", hyp), ("before", stateJ w)])
+  | some r =>
+    pure (obj [("res", "ok"), ("hyp", hyp), ("before", stateJ w), ("state", stateJ r.w),
+      ("callee", Json.arr (r.t.callee.map (fun p => Json.arr #[toJson p.1, toJson p.2])).toArray),
+      ("outs", Json.arr ((List.range r.w.graphs.length).map (fun g => natsJ (r.t.outsOf g))).toArray),
+      ("subst", natsJ r.subst),
+      ("weak", toJson (decide (WeakOK r.w m r.subst)))])
+
 def handle : Handler := fun m j =>
   match m with
   | "device.inst" => some (instReq j)
+  | "device.inline" => some (inlineReq j)
   | "device.run" => some do
       let ops ← getArr j "ops"
       let full := (j.getObjValAs? Bool "full").toOption.getD true
